@@ -56,6 +56,8 @@ def jobs(tier):
     for src in templates.SOURCES:
         for off in offs:
             out.append(J(f"B|{src}|{off}", 14))
+    out.append({"name": "T8-8-8", "h": "e2e", "params": {"template": "T8", "lens": [8, 8], "flagsets": [1]}, "split": 16, "chunk": 25, "max_paths": 100000})
+    out.append({"name": "B|lookup|0-14-14", "h": "e2e", "params": {"template": "B|lookup|0", "lens": [14, 14], "flagsets": [1]}, "split": 16, "chunk": 25, "max_paths": 100000})
     out.append({"name": "T2-18", "h": "e2e", "params": {"template": "T2", "lens": [18], "flagsets": [1]}, "split": 16, "chunk": 25, "max_paths": 100000})
     return out
 
